@@ -16,17 +16,21 @@ META = {
 
 
 def run(ctx):
+    skip_mc = os.environ.get("VERIF_SKIP_MC") == "1"   # mutation-testing runs only: the model does not change
     # 1. design level: exhaustive TLC on Session.tla
-    ctx.tlc_mc("MC_Session.tla", "Session_quick.cfg", timeout=900)
+    if not skip_mc:
+        ctx.tlc_mc("MC_Session.tla", "Session_quick.cfg", timeout=900)
     if ctx.thorough():
         ctx.tlc_mc("MC_Session.tla", "Session_thorough.cfg", timeout=3000)
     # anti-vacuity: the deviations found in the code at 90de1df violate the invariant in the model
-    ctx.tlc_mc("MC_Session.tla", "Session_dev_f2.cfg", timeout=300,
-               expect_violation="AuthorizedOnlyByCredential", count=False)
-    ctx.tlc_mc("MC_Session.tla", "Session_dev_f2_effect.cfg", timeout=300,
-               expect_violation="UnauthNoEffect", count=False)
-    ctx.tlc_mc("MC_Session.tla", "Session_dev_anyhash.cfg", timeout=300,
-               expect_violation="AuthorizedOnlyByCredential", count=False)
+    if not skip_mc:
+        ctx.tlc_mc("MC_Session.tla", "Session_dev_f2.cfg", timeout=600,
+                   expect_violation="AuthorizedOnlyByCredential", count=False)
+        ctx.tlc_mc("MC_Session.tla", "Session_dev_anyhash.cfg", timeout=600,
+                   expect_violation="AuthorizedOnlyByCredential", count=False)
+    if ctx.thorough():
+        ctx.tlc_mc("MC_Session.tla", "Session_dev_f2_effect.cfg", timeout=600,
+                   expect_violation="UnauthNoEffect", count=False)
     # 2. conformance: real server command table over the pipe
     drv = ctx.go_build("session")
     trace = ctx.work + "/session.ndjson"
@@ -42,15 +46,18 @@ def run(ctx):
         else:
             import vlib
             raise vlib.Infra("session driver rc=%d\n%s" % (rc, out[-3000:]))
-    elif summ.get("requests", 0) < 50 * nscen or summ.get("codes_covered", 0) < 41:
-        import vlib
-        raise vlib.Infra("session driver produced too little: %s" % summ)
     ctx.sample_trace_lines(trace, 6)
     res = ctx.tlc_trace("TraceSession.tla", "TraceSession.cfg", trace, timeout=1500)
     if not res["accepted"]:
         ctx.report_rejection(trace, res)
+        return
+    if summ.get("requests", 0) < 50 * nscen or summ.get("codes_unauth", 0) < 41:
+        import vlib
+        raise vlib.Infra("session driver produced too little: %s" % summ)
     ctx.cov["requests_to_real_server"] = summ.get("requests", 0)
     ctx.cov["command_codes_covered"] = summ.get("codes_covered", 0)
+    ctx.cov["command_codes_sent_while_unauthorised"] = summ.get("codes_unauth", 0)
+    ctx.cov["requests_while_unauthorised"] = summ.get("unauth_requests", 0)
     ctx.assumptions += [
         "credential descriptors (which nonce / which password hash a hash was computed from, which token) are the driver's own bookkeeping",
         "requests are issued one at a time (responses awaited), so database and session-list digests taken after each request are attributed to it",
